@@ -216,8 +216,12 @@ def judge_field(ctx, rec, res, fam, name):
     if fam in ("fq", "fr"):
         mod = m.m
         rty = "Q" if fam == "fq" else "R"
-        if name == "cmp":
+        if name in ("cmp", "pcmp"):
             return expect_val(res, rec, ("n", (a[0] > a[1]) - (a[0] < a[1])))
+        if name in ("lt", "gt", "le", "ge"):
+            return expect_val(res, rec, ("t", {"lt": a[0] < a[1], "gt": a[0] > a[1], "le": a[0] <= a[1], "ge": a[0] >= a[1]}[name]))
+        if name == "max":
+            return expect_val(res, rec, (ty, max(a[0], a[1])))
         if name == "from_repr":
             if a[0] < mod:
                 return expect_val(res, rec, (ty, a[0]))
@@ -255,9 +259,14 @@ def judge_field(ctx, rec, res, fam, name):
         if name == "negate_if" and fam == "fq":
             return expect_val(res, rec, (ty, m.neg(a[0]) if a[1] else a[0]))
     if fam == "fq2":
-        if name == "cmp":
+        if name in ("cmp", "pcmp"):
             ka, kb = F.f2_cmp_key(a[0]), F.f2_cmp_key(a[1])
             return expect_val(res, rec, ("n", (ka > kb) - (ka < kb)))
+        if name in ("lt", "gt", "le", "ge"):
+            ka, kb = F.f2_cmp_key(a[0]), F.f2_cmp_key(a[1])
+            return expect_val(res, rec, ("t", {"lt": ka < kb, "gt": ka > kb, "le": ka <= kb, "ge": ka >= kb}[name]))
+        if name == "max":
+            return expect_val(res, rec, (ty, a[0] if F.f2_cmp_key(a[0]) >= F.f2_cmp_key(a[1]) else a[1]))
         if name == "legendre":
             return expect_val(res, rec, ("n", F.f2_legendre(a[0])))
         if name == "sqrt":
@@ -320,8 +329,10 @@ def judge_repr(ctx, rec, res, fam, name):
         return expect_val(res, rec, ("t", a[0] & 1 == 1))
     if name == "is_even":
         return expect_val(res, rec, ("t", a[0] & 1 == 0))
-    if name == "cmp":
+    if name in ("cmp", "pcmp"):
         return expect_val(res, rec, ("n", (a[0] > a[1]) - (a[0] < a[1])))
+    if name in ("lt", "gt"):
+        return expect_val(res, rec, ("t", a[0] < a[1] if name == "lt" else a[0] > a[1]))
     if name == "eq":
         return expect_val(res, rec, ("t", a[0] == a[1]))
     if name == "from_u64":
